@@ -69,6 +69,11 @@ def obligations(tier, what=WHAT):
     obs.append(Ob("v3_response", partial(sp.ob_v3_response, what=what), sp.LIFT_ALL, rs, to, ve,
                   ["none", "body", "stream", "failed", "raises"], known=["C29-v3-stream-error-before-first-chunk"],
                   bounds=rsb + "; args from 3 concrete tuples"))
+    pg = dict(rq)
+    pg.update(nparts=2 if tier == "quick" else 3, lchunk=1 if tier == "quick" else 2, ncuts=2, ntail=1)
+    obs.append(Ob("v3_grammar", partial(sp.ob_v3_grammar, what=what), [sp.PROTO], pg, to, ve, ["ends_with_byte_part", "full"],
+                  bounds="hand-built v3 messages: empty headers + " + _b(pg, ["nparts"]) + " parts, each a one-byte part / bytes "
+                         "part of " + _b(pg, ["lchunk"]) + " symbolic bytes / structure part, then 'e'; " + _b(pg, ["ntail", "ncuts"])))
     pp = params(tier, "pipe")
     obs.append(Ob("pipe_server", partial(sp.ob_pipe_server, what=what), sp.LIFT_ALL, pp, to, ve,
                   ["v1", "v2", "v3"], bounds=_b(pp, ["larg", "nbody", "short"])))
